@@ -1,6 +1,9 @@
 package chain
 
 import (
+	beacon "github.com/oasisprotocol/oasis-core/go/beacon/api"
+	"github.com/oasisprotocol/oasis-core/go/common"
+	"github.com/oasisprotocol/oasis-core/go/roothash/api/commitment"
 	"github.com/dgraph-io/badger/v4/verifhook"
 	"bytes"
 	"context"
@@ -33,7 +36,6 @@ import (
 	sanityApp "github.com/oasisprotocol/oasis-core/go/consensus/cometbft/apps/supplementarysanity"
 	vaultApp "github.com/oasisprotocol/oasis-core/go/consensus/cometbft/apps/vault"
 	tmbeacon "github.com/oasisprotocol/oasis-core/go/consensus/cometbft/beacon"
-	tmroothash "github.com/oasisprotocol/oasis-core/go/consensus/cometbft/roothash"
 	genesis "github.com/oasisprotocol/oasis-core/go/genesis/api"
 	"github.com/oasisprotocol/oasis-core/go/storage/mkvs"
 	"github.com/oasisprotocol/oasis-core/go/storage/mkvs/node"
@@ -141,7 +143,9 @@ func NewNode(doc *genesis.Document, ident *identity.Identity, backend, dir strin
 	}
 	state := srv.State()
 	md := srv.MessageDispatcher()
-	rh := tmroothash.New(nil, tmroothash.NewStateQueryFactory(state))
+	// (the roothash application only hands executor commitments seen in the mempool to the local node's
+	// roothash service; the service client object itself starts broker goroutines that never stop)
+	rh := nopCommitmentNotifier{}
 	sApp := stakingApp.New(state, md)
 	apps := []cmtapi.Application{
 		beaconApp.New(),
@@ -166,7 +170,7 @@ func NewNode(doc *genesis.Document, ident *identity.Identity, backend, dir strin
 			return nil, err
 		}
 	}
-	bc := tmbeacon.New(doc.Beacon.Base, doc.Height, nil, tmbeacon.NewStateQueryFactory(state))
+	bc := &epochSource{base: doc.Beacon.Base, q: tmbeacon.NewStateQueryFactory(state)}
 	if err := srv.SetEpochtime(bc); err != nil {
 		cancel()
 		return nil, err
@@ -183,12 +187,47 @@ func NewNode(doc *genesis.Document, ident *identity.Identity, backend, dir strin
 	return n, nil
 }
 
+// epochSource is the time source of the multiplexer: the three read-only queries it uses, answered from
+// the beacon application's state exactly as the node's beacon service client answers them (GetBaseEpoch,
+// GetEpoch, GetFutureEpoch of consensus/cometbft/beacon.ServiceClient are these three lines each).  The
+// service client itself is not used because every instance starts two pub/sub broker goroutines that
+// cannot be stopped; with hundreds of thousands of replicas per run they pinned tens of gigabytes.
+type epochSource struct {
+	beacon.Backend
+	base beacon.EpochTime
+	q    tmbeacon.QueryFactory
+}
+
+func (e *epochSource) GetBaseEpoch(context.Context) (beacon.EpochTime, error) { return e.base, nil }
+
+func (e *epochSource) GetEpoch(ctx context.Context, height int64) (beacon.EpochTime, error) {
+	q, err := e.q.QueryAt(ctx, height)
+	if err != nil {
+		return beacon.EpochInvalid, err
+	}
+	epoch, _, err := q.Epoch(ctx)
+	return epoch, err
+}
+
+func (e *epochSource) GetFutureEpoch(ctx context.Context, height int64) (*beacon.EpochTimeState, error) {
+	q, err := e.q.QueryAt(ctx, height)
+	if err != nil {
+		return nil, err
+	}
+	return q.FutureEpoch(ctx)
+}
+
+type nopCommitmentNotifier struct{}
+
+func (nopCommitmentNotifier) DeliverExecutorCommitment(common.Namespace, *commitment.ExecutorCommitment) {}
+
 // Close releases the replica.
 func (n *Node) Close() {
 	defer func() { _ = recover() }()
 	n.Srv.Stop()
 	n.Srv.Cleanup()
 	n.cancel()
+	abci.VerifReleaseState(n.Srv)
 }
 
 // InitChain runs InitChain with the genesis document.
